@@ -1376,7 +1376,7 @@ def run_pure_oracles(pid, q, ans):
             want = (bytes([0x11, len(r)]) + r + bytes([len(sn)]) + sn).hex()
             if ans != want:
                 out.append({"oracle": "stream-key-layout", "signature": "key", "detail": "key of %s/%s is %s, layout says %s" % (t[2], t[3], ans, want), "request": q})
-    if pid == "C16" and ans == "ok" and t:
+    if pid in ("C16", "C12") and ans == "ok" and t:
         # independent statement of the validity rules: a parameter structure the real Validate() accepts must satisfy them
         DEN = r"^[a-zA-Z][a-zA-Z0-9/:._-]{2,127}$"
         why = None
